@@ -404,7 +404,61 @@ impl<'a> G<'a> {
         }
     }
 
+    /// a point whose encoding is a small integer (small y, small Montgomery u, small Ristretto s), reached as the result
+    /// of generic additions (P - Q) + Q so that its coordinates are barely-reduced products when it is encoded
+    fn small_encoding_result(&mut self, g: u8) {
+        let q = match self.pick(g) {
+            Some(q) => q,
+            None => return,
+        };
+        let bits = [4u32, 8, 16, 32, 51, 57][self.rng.below(6) as usize];
+        let mut enc = None;
+        for _try in 0..40 {
+            let v = 2 + (self.rng.next() & (u64::MAX >> (64 - bits)));
+            let mut b = [0u8; 32];
+            b[..8].copy_from_slice(&v.to_le_bytes());
+            if g == 0 {
+                if self.rng.coin() {
+                    if Pt::decode(&b).is_some() {
+                        enc = Some(b);
+                        break;
+                    }
+                } else if let Some(p) = refmodel::x25519::to_edwards(&b, self.rng.below(2) as u8) {
+                    enc = Some(p.encode());
+                    break;
+                }
+            } else {
+                b[0] &= 0xfe;
+                if refmodel::ristretto::decode(&b).is_some() {
+                    enc = Some(b);
+                    break;
+                }
+            }
+        }
+        let enc = match enc {
+            Some(e) => e,
+            None => return,
+        };
+        bump(&mut self.c, "probe:small_encoding_as_result_of_additions");
+        let h1 = self.dst();
+        { let st__ = Step::Dec { g, dst: h1, b: B(enc.to_vec()), via: 0 }; self.emit(st__); }
+        let h2 = self.dst();
+        { let st__ = Step::Bin { g, dst: h2, a: h1, b: q, sub: true, via: 0 }; self.emit(st__); }
+        let h3 = self.dst();
+        { let st__ = Step::Bin { g, dst: h3, a: h2, b: q, sub: false, via: self.rng.below(4) as u8 }; self.emit(st__); }
+        if self.file(g)[h3 as usize].is_some() {
+            { let st__ = Step::Cmp { g, a: h3 }; self.emit(st__); }
+            if g == 0 {
+                { let st__ = Step::ToMont { a: h3 }; self.emit(st__); }
+            }
+        }
+    }
+
     fn group_op(&mut self, g: u8) {
+        if self.rng.chance(1, 30) {
+            self.small_encoding_result(g);
+            return;
+        }
         if self.rng.chance(1, 40) {
             let (a, b) = (self.scalar(true), if self.rng.chance(1, 6) { Sc { b: B(vec![0u8; 32]), k: 1 } } else { self.scalar(true) });
             { let st__ = Step::SArith { a, b }; self.emit(st__); }
